@@ -6,6 +6,9 @@ use std::rc::Rc;
 mod dbmap;
 mod inner;
 
+#[cfg(abyssiniandb_verif)]
+pub mod verif_probe;
+
 pub use dbmap::{DbBytes, DbI64, DbString, DbU64, DbVu64};
 pub use dbmap::{FileDbMap, FileDbMapDbBytes, FileDbMapDbString};
 pub use dbmap::{FileDbMapDbI64, FileDbMapDbU64, FileDbMapDbVu64};
